@@ -74,8 +74,10 @@ def replay_case(case):
     n, x, cps = case["n"], np.asarray(case["x"], dtype=float), case["cps"]
     want = [list(r) for r in case["rows"]]
     fails = []
-    for rep, X in (("ndarray1d", x.copy()), ("ndarray2d", x.reshape(-1, 1).copy()), ("Series", pd.Series(x.copy())),
+    for rep, X in (("ndarray1d", x.copy()), ("ndarray2d", x.reshape(-1, 1).copy()), ("Series", pd.Series(x.copy(), index=pd.RangeIndex(0, 3 * n, 3))),
                    ("ndarray1d-int64", x.astype(np.int64)),
+                   ("DataFrame-repeated-dates", pd.DataFrame({"v": x.copy()}, index=pd.DatetimeIndex(
+                       [pd.Timestamp("2021-03-01") + pd.Timedelta(days=i // 2) for i in range(n)]))),
                    ("DataFrame", pd.DataFrame({"v": x.copy()}, index=pd.RangeIndex(7, 7 + n)))):
         inner = stub(cps)
         params_before = repr(inner.get_params())
@@ -123,7 +125,8 @@ def record(args):
         d = int(rng.choice([1, 2, 3]))
         ln = int(rng.integers(-4, 3))
         hn = int(rng.integers(ln, ln + 6))
-        X = [x.copy(), pd.Series(x.copy()), pd.DataFrame({"a": x.copy()}, index=pd.date_range("2020-01-01", periods=n))][int(rng.integers(0, 3))]
+        X = [x.copy(), pd.Series(x.copy()), pd.DataFrame({"a": x.copy()}, index=pd.date_range("2020-01-01", periods=n)),
+             pd.DataFrame({"a": x.copy()}, index=pd.PeriodIndex([pd.Period("2021-03", freq="M") + j // 3 for j in range(n)]))][int(rng.integers(0, 4))]
         rid = f"a-{seed}-{i}"
         try:
             before = repr(inner.get_params())
@@ -143,7 +146,7 @@ def run(tier: str) -> int:
     chk = Check(PROP, tier)
     chk.rule = ("stage A/B: every integer series (values -1..2) x every changepoint set x 6 statistics (sum, mean, min, max, "
                 "median, a user count statistic) x all integer bounds lo <= hi within the constants, replayed around a "
-                "stub detector for 5 input representations; stage C: PELT / MovingWindow / SeededBinarySegmentation inside. "
+                "stub detector for 6 input representations (arrays, int64, Series on a stepped index, frames on an offset index and on repeated dates); stage C: PELT / MovingWindow / SeededBinarySegmentation inside. "
                 "Non-trivial = at least one flagged segment (B) / reported anomaly or changepoint (C); distinct by hash.")
     chk.assumptions = ["TLC/SANY and the Json module", "integer data so that mean/median comparisons with the bounds are exact"]
     with Workdir(PROP) as wd:
